@@ -21,9 +21,9 @@ SPELL = ['none', 'disp', 'num', 'full', 'star', 'trcl', 'trcl+fill']
 
 
 def make(task):
-    sd, depth, reuse, sp, inner = task
+    sd, depth, reuse, sp, inner = task[:5]
     rnd = random.Random(sd)
-    deck, pre = gen.fill_deck(rnd, depth=depth, reuse=reuse, spelling=sp, inner=inner)
+    deck, pre = gen.fill_deck(rnd, depth=depth, reuse=reuse, spelling=sp, inner=inner, empty_cell=task[5] if len(task) > 5 else None)
     return deck, pre
 
 
